@@ -36,6 +36,7 @@ type kase struct {
 	Enc     int           `json:"enc,omitempty"`
 	QID     bool          `json:"qid,omitempty"`
 	QT      bool          `json:"qtemplate,omitempty"` // FASTA read into a quality-carrying template (letters appended line by line)
+	Prefix  bool          `json:"prefixed,omitempty"`  // FASTA written and read with IDPrefix "#>" and SeqPrefix "##" (as embedded in other formats)
 	BedTyp  int           `json:"bedtyp,omitempty"`
 	Bed     []featgen.Bed `json:"bed,omitempty"`
 	Gff     []featgen.Gff `json:"gff,omitempty"`
@@ -124,7 +125,17 @@ func check(c *enum.Ctx, k kase) {
 			var text []byte
 			var err error
 			enc := alphabet.Encoding(k.Enc)
-			if k.Format == "fasta" {
+			if k.Format == "fasta" && k.Prefix {
+				var buf bytes.Buffer
+				w := fasta.NewWriter(&buf, k.Width)
+				w.IDPrefix, w.SeqPrefix = []byte("#>"), []byte("##")
+				for _, r := range recs {
+					if _, err = w.Write(seqgen.Make(r, false, false, alphabet.Sanger)); err != nil {
+						break
+					}
+				}
+				text = buf.Bytes()
+			} else if k.Format == "fasta" {
 				text, err = seqgen.WriteFasta(recs, false, false, k.Width)
 			} else {
 				text, err = seqgen.WriteFastq(recs, true, enc, k.QID)
@@ -137,7 +148,11 @@ func check(c *enum.Ctx, k kase) {
 			var got []seqgen.Rec
 			comp := seqgen.NewCompanion(k.Format) // a second reader over another layout, advanced alternately
 			if k.Format == "fasta" {
-				got, _, err = seqgen.ReadAllWith(fasta.NewReader(bytes.NewReader(variant), seqgen.Template(k.QT, false, alphabet.Sanger)), comp, false, len(recs)+2)
+				rd := fasta.NewReader(bytes.NewReader(variant), seqgen.Template(k.QT, false, alphabet.Sanger))
+				if k.Prefix {
+					rd.IDPrefix, rd.SeqPrefix = []byte("#>"), []byte("##")
+				}
+				got, _, err = seqgen.ReadAllWith(rd, comp, false, len(recs)+2)
 			} else {
 				got, _, err = seqgen.ReadAllWith(fastq.NewReader(bytes.NewReader(variant), seqgen.Template(true, false, enc)), comp, true, len(recs)+2)
 			}
@@ -270,7 +285,7 @@ func layouts(n int, blankSites []int, trailing bool, pairs bool) []layout {
 }
 
 func run(c *enum.Ctx) {
-	c.Rule("FASTA read into plain and quality-carrying templates; every FASTA/FASTQ file read alternately with a companion reader of another configuration; valid files from the C01/C02 generators (<=2 records; FASTA also a 12289-letter record) x layout transformations: FASTA re-wrap at widths {1,2,3,60,4095,4096,4097,20000}, a blank line at every line boundary (thorough: every pair), trailing ' ', tab, ' tab' on each line and on all lines, CRLF, no final newline, and their pairwise combinations; FASTQ: CRLF, blank lines at record boundaries, trailing blanks, no final newline; BED (every type) and GFF (features, regions, inline sequences last or not): CRLF x final newline; oracle: the record list of the variant equals that of the canonical file; non-trivial = variants that differ from the canonical text")
+	c.Rule("FASTA read into plain and quality-carrying templates, and written/read with ID and sequence-line prefixes; every FASTA/FASTQ file read alternately with a companion reader of another configuration; valid files from the C01/C02 generators (<=2 records; FASTA also a 12289-letter record) x layout transformations: FASTA re-wrap at widths {1,2,3,60,4095,4096,4097,20000}, a blank line at every line boundary (thorough: every pair), trailing ' ', tab, ' tab' on each line and on all lines, CRLF, no final newline, and their pairwise combinations; FASTQ: CRLF, blank lines at record boundaries, trailing blanks, no final newline; BED (every type) and GFF (features, regions, inline sequences last or not): CRLF x final newline; oracle: the record list of the variant equals that of the canonical file; non-trivial = variants that differ from the canonical text")
 	c.Assume("blank lines inside a FASTQ record and trailing blanks/blank lines in BED/GFF are not covered by the statement and are not generated")
 	var cases []kase
 	recs := []seqgen.Rec{
@@ -369,6 +384,15 @@ func run(c *enum.Ctx) {
 	for _, k := range cases[:len(cases):len(cases)] {
 		if k.Format == "fasta" {
 			k.QT = true
+			cases = append(cases, k)
+		}
+	}
+	// every FASTA case without blank lines again with line prefixes on both sides (the form in which
+	// FASTA is embedded in other formats): the prefix of a sequence line that is longer than the read
+	// buffer is seen once
+	for _, k := range cases[:len(cases):len(cases)] {
+		if k.Format == "fasta" && len(k.L.Blank) == 0 {
+			k.Prefix = true
 			cases = append(cases, k)
 		}
 	}
